@@ -98,6 +98,7 @@ class Spec:
                 n = rng.choice([3, 5, 7])
                 self.types.append(("subset", n, rng.randrange(1, n + 1), elements))
         flat = self.flat_len()
+        self.form = "quadratic" if (kind == "real" and rng.random() < 0.6) or (kind != "real" and rng.random() < 0.25) else "linear"
         self.w = [[rng.randrange(-2, 4) for _ in range(flat)] for _ in range(nobjs)]
         self.cw = [[rng.randrange(-1, 3) for _ in range(flat)] for _ in range(nconstrs)]
         self.cthr = [float(rng.randrange(-2, 6)) for _ in range(nconstrs)]
@@ -132,7 +133,7 @@ class Spec:
         for row in self.w:
             acc = 0.0
             for wi, zi in zip(row, z):
-                acc = acc + wi * zi
+                acc = (acc + (zi - float(wi)) * (zi - float(wi))) if self.form == "quadratic" else (acc + wi * zi)
             objs.append(acc)
         cons = []
         for row, thr in zip(self.cw, self.cthr):
@@ -148,7 +149,7 @@ class Spec:
             return "wrong number of variables"
         for i, (t, v) in enumerate(zip(self.types, decoded)):
             if t[0] == "real":
-                if not isinstance(v, float) or v != v or not (t[1] <= v <= t[2]):
+                if isinstance(v, bool) or not isinstance(v, (int, float)) or v != v or not (t[1] <= v <= t[2]):
                     return f"variable {i}: real {v!r} outside [{t[1]},{t[2]}]"
             elif t[0] == "int":
                 if not isinstance(v, int) or isinstance(v, bool) or not (t[1] <= v <= t[2]):
@@ -166,7 +167,7 @@ class Spec:
         return None
 
     def describe(self):
-        return {"kind": self.kind, "types": [list(map(str, t)) for t in self.types], "nobjs": self.nobjs, "constraints": self.cops,
+        return {"kind": self.kind, "form": self.form, "types": [list(map(str, t)) for t in self.types], "nobjs": self.nobjs, "constraints": self.cops,
                 "maximise": [bool(d) for d in self.dirs]}
 
 
@@ -308,9 +309,9 @@ ALGOS = {
     "IBEA": (lambda p, n, kw: A.IBEA(p, population_size=n, **kw), {"unconstrained", "multi"}),
     "PAES": (lambda p, n, kw: A.PAES(p, divisions=3, capacity=max(2, n), **kw), set()),
     "PESA2": (lambda p, n, kw: A.PESA2(p, population_size=n, divisions=3, capacity=max(2, n), **kw), set()),
-    "OMOPSO": (lambda p, n, kw: A.OMOPSO(p, epsilons=[0.5], swarm_size=n, leader_size=max(2, n // 2), max_iterations=3,
+    "OMOPSO": (lambda p, n, kw: A.OMOPSO(p, epsilons=[kw.pop("eps", 0.5)], swarm_size=n, leader_size=kw.pop("leader", max(2, n // 2)), max_iterations=3,
                                          **{k: v for k, v in kw.items() if k != "variator"}), {"real"}),
-    "SMPSO": (lambda p, n, kw: A.SMPSO(p, swarm_size=n, leader_size=max(2, n // 2), max_iterations=3,
+    "SMPSO": (lambda p, n, kw: A.SMPSO(p, swarm_size=n, leader_size=kw.pop("leader", max(2, n // 2)), max_iterations=3,
                                        **{k: v for k, v in kw.items() if k != "variator"}), {"real"}),
     "CMAES": (lambda p, n, kw: A.CMAES(p, offspring_size=max(n, 4), **{k: v for k, v in kw.items() if k != "variator"}), {"real"}),
 }
@@ -352,7 +353,7 @@ def explicit_variator(name, spec, rng):
 
 
 def run_traced(name, spec, seed, size, budgets, evaluator="map", explicit=False, extreme=0.0, op_rng=None, log_frequency=None,
-               injected=0, collect_steps=True):
+               injected=0, collect_steps=True, extra_kw=None):
     """returns (trace, algorithm, error or None)"""
     tr = Trace()
     prob = TracedProblem(spec, tr)
@@ -363,6 +364,7 @@ def run_traced(name, spec, seed, size, budgets, evaluator="map", explicit=False,
     with patched_random(rng):
         try:
             kw = {"evaluator": ev}
+            kw.update(extra_kw or {})
             if log_frequency is not None:
                 kw["log_frequency"] = log_frequency
             if explicit:
